@@ -213,7 +213,15 @@ func setupProject(tc *treeCase) (root string, files map[string][]byte, err error
 	if err != nil {
 		return "", nil, err
 	}
+	return setupProjectAt(tc, outer)
+}
+
+// setupProjectAt writes the project under outer/proj, replacing whatever project was there.
+func setupProjectAt(tc *treeCase, outer string) (root string, files map[string][]byte, err error) {
 	root = filepath.Join(outer, "proj")
+	if err := os.RemoveAll(root); err != nil {
+		return root, nil, err
+	}
 	if err := os.MkdirAll(root, 0o755); err != nil {
 		return root, nil, err
 	}
